@@ -42,6 +42,15 @@ CHECKS = {
  "C18": dict(level="model_checking", design="§3 C18",
    technique="explicit-state BFS to fixpoint over parameter updates and genesis (re)initialisation with a last-value-set reference model; passthrough-length probes on 3 routes in every state on an instrumented replica that records call order",
    text="All parameter states reachable by UpdateParams (authority / non-authority), InitGenesis(params=v) and export->init round trips over the value menu {0,1,2,64,2^32-1} (thorough adds 63,65,8192,30000 and pauses) are enumerated to fixpoint, plus the 'params never set' store; in every state passthrough lengths {0,1,2,3,63,64,65,8192,20000,30000} x {cctp,hyp,internal} must be refused for size iff longer than the limit in force, before the wrapped ICS-20 app is called, and must succeed otherwise (below ICS-20's own memo cap); the Params query equals the model."),
+ "C04": dict(level="exploration", design="§3 C04",
+   technique="bounded-exhaustive enumeration of amounts x fee lists through the repository's FeeController.HandlePacket (recording bank) and through the full application, against a math/big reference",
+   text="Pure level: every amount 1..2000 (thorough 1..20000) plus 2^k and overflow boundaries x all 931 fee lists of length <=2 over a 30-shape menu (bps 0..2^32-1, fixed amounts incl. signs/hex/underscore/empty/2^256, relative A-1/A/A+1, recipient spellings) and boundary amounts x all lists of length <=4 (thorough <=6: 55987 lists) over a 6-shape sub-menu (repeated recipients, mixtures): refusal exactly on the property's list with nothing paid and the amount untouched, otherwise per-recipient credits and the forwarded amount equal floor arithmetic on the incoming amount. Stack level: the same lists (and the 5/6-entry boundary, amounts up to 2^256-1) through the full app on the internal route with whole-ledger comparison."),
+ "C07": dict(level="model_checking", design="§3 C07",
+   technique="differential (paired) execution on two branches of every state of an explicit-state BFS: the application's transfer stack versus a reference stack without the orbiter middleware; acks, masked events and full-store hashes compared; reflection-driven pass-through check of all other callbacks",
+   text="From every state reachable by <=2 operations over orbiter pauses, parameter change, deposits, a transfer and token-factory toggles, ~690 (thorough ~2000) packets not addressed to the orbiter (receivers x memos incl. valid orbiter payloads x coins incl. mint path and malformed amounts; ICS-24-valid channel/port identifiers incl. non channel-N source channels; senders; all raw byte strings up to length 2/3 over 11 symbols; structurally damaged ICS-20 JSON incl. receiver=orbiter) must produce byte-identical acks, identical events (third-party noise calibrated by running the reference twice) and identical stores with and without the middleware; every IBCModule/ICS4Wrapper method except OnRecvPacket (enumerated by reflection) must reach the inner implementation with the same arguments and return its results; ack/timeout refund paths are compared on the full app."),
+ "C20": dict(level="exploration", design="§3 C20",
+   technique="exhaustive enumeration of all strings up to length 4 over a 10-symbol alphabet (plus targeted strings) x protocol ids against a canonical-uint32 reference; thorough enumerates all 2^32 domains; dynamic pause-then-probe on the full application",
+   text="For all 11111 strings of length <=4 over {0,1,9,+,-,space,:,a,.,_} plus ~60 targeted strings and protocol ids -1..5: accepted pairs round-trip through ID/ParseCrossChainID, no two accepted pairs share a textual form, CCTP/Hyperlane accept exactly the canonical decimal uint32 strings, constructor/validation/pause message/query/genesis validation accept the same set, the attribute types produce exactly the canonical string (2000+boundary domains; thorough all 2^32), and every accepted CCTP/Hyperlane string that names a routable domain, once paused through the real message, makes the transfer to that domain refused."),
 }
 
 NOT_YET = {}
